@@ -13,15 +13,15 @@ CHECK = dict(
         dict(name="dnsserver", dir=D, src="C06/dnsserver", runs=[
             dict(name="quic", run="^TestVerifC06QUIC$", quick=4000, thorough=200000, shards_thorough=6),
             dict(name="quic-cuts", run="^TestVerifC06QUICCuts$", quick=0, thorough=0),
-            dict(name="sockets", run="^TestVerifC06Sockets$", quick=400, thorough=12000, shards_thorough=4),
+            dict(name="sockets", run="^TestVerifC06Sockets$", quick=400, thorough=4000, shards_thorough=4),
             # one P: sync.Pool then hands a buffer that one goroutine put straight to the next taker
-            dict(name="sockets-1p", run="^TestVerifC06Sockets$", quick=250, thorough=6000, shards_thorough=3, env={"GOMAXPROCS": "1"}),
+            dict(name="sockets-1p", run="^TestVerifC06Sockets$", quick=250, thorough=1800, shards_thorough=3, env={"GOMAXPROCS": "1"}),
             dict(name="quic-fuzz", run="^FuzzVerifC06QUIC$", quick=0, thorough=0, tier_only="thorough",
                  fuzz="^FuzzVerifC06QUIC$", fuzztime="90s", timeout_thorough=600, env={"GOMAXPROCS": "4"}),
         ]),
         dict(name="bindtodevice", dir="internal/bindtodevice", src="C06/bindtodevice", runs=[
-            dict(name="btd-udp", run="^TestVerifC06BindToDevice$", quick=300, thorough=10000, shards_thorough=2),
-            dict(name="btd-udp-1p", run="^TestVerifC06BindToDevice$", quick=200, thorough=5000, shards_thorough=2, env={"GOMAXPROCS": "1"}),
+            dict(name="btd-udp", run="^TestVerifC06BindToDevice$", quick=300, thorough=3000, shards_thorough=2),
+            dict(name="btd-udp-1p", run="^TestVerifC06BindToDevice$", quick=200, thorough=1500, shards_thorough=2, env={"GOMAXPROCS": "1"}),
         ]),
         dict(name="forward", dir=D + "/forward", src="C06/forward", runs=[
             dict(name="readmsg", run="^TestVerifC06UpstreamRead$", quick=4000, thorough=200000, shards_thorough=6),
